@@ -22,10 +22,13 @@ const (
 	tEmpty
 	tCall
 	tCreate
+	tSelf // the sender pays itself (aliasing of the two sides of Transfer)
 	nTargets
 )
 
-var targetNames = []string{"eoa", "fresh-empty", "call-contract", "create"}
+var targetNames = []string{"eoa", "fresh-empty", "call-contract", "create", "self"}
+
+func plainTarget(t int) bool { return t == tEOA || t == tEmpty || t == tSelf }
 
 const (
 	nForks   = 2
@@ -52,6 +55,7 @@ type txSpec struct {
 	Gas    int    `json:"gas_class"`
 	Price  int    `json:"price_class"`
 	Target int    `json:"target"`
+	CbSend bool   `json:"coinbase_is_sender,omitempty"` // the block proposer is the sender itself (aliasing)
 	Prog   []int  `json:"program,omitempty"`
 	Desc   string `json:"desc,omitempty"`
 }
@@ -59,8 +63,11 @@ type txSpec struct {
 func (s txSpec) String() string {
 	d := fmt.Sprintf("%s sender=%s nonce=%s value=%s gas=%s price=%v target=%s", forkNames[s.Fork], senderNames[s.Sender], nonceNames[s.Nonce],
 		valueNames[s.Value], gasNames[s.Gas], prices[s.Price], targetNames[s.Target])
-	if s.Target >= tCall {
+	if s.Target == tCall || s.Target == tCreate {
 		d += " program=" + progName(s.Prog)
+	}
+	if s.CbSend {
+		d += " proposer=sender"
 	}
 	return d
 }
@@ -115,6 +122,9 @@ func (s txSpec) concrete() (c concrete, ok bool) {
 		c.to = &a
 	case tCreate:
 		c.data = progInitCode(s.Prog)
+	case tSelf:
+		a := senders[s.Sender]
+		c.to = &a
 	}
 	c.intr = intrinsic(s.Fork, s.Target == tCreate, c.data)
 	c.nonce = uint64(senderNonce + s.Nonce - 1)
@@ -247,6 +257,7 @@ func (r *txResult) fail(oracle, what string) {
 	if r.class != "" {
 		sig = fmt.Sprintf("C09|path=ApplyTransaction|reject=%s|oracle=%s", r.class, oracle)
 	} else {
+		// (the proposer-is-sender variants share the signature of their target kind; the case text tells them apart)
 		sig = fmt.Sprintf("C09|path=ApplyTransaction|tx=%s/%s|oracle=%s", targetNames[r.spec.Target], r.status, oracle)
 	}
 	r.finds = append(r.finds, finding{sig, what + " :: " + r.spec.String()})
@@ -269,6 +280,11 @@ func evalTx(p *preState, spec txSpec, tx *types.Transaction, c concrete) *txResu
 	gp := new(types.GasPool).AddGas(poolInit)
 	used := uint64(0)
 	hdr := header(forkHeight(spec.Fork), poolInit)
+	coinbase := addrCoinbase
+	if spec.CbSend {
+		coinbase = senders[spec.Sender]
+		hdr.ProposerAddress = coinbase
+	}
 	tr := &burnTracer{}
 	st.Prepare(tx.Hash(), common.Hash{}, 0)
 	rev := st.Snapshot()
@@ -304,32 +320,27 @@ func evalTx(p *preState, spec txSpec, tx *types.Transaction, c concrete) *txResu
 		}
 		poolDelta := int64(poolInit) - int64(poolAfter)
 		if stateDirty || poolDelta != 0 {
-			// Tolerated residue (assumption A2): a rejection decided after buyGas leaves exactly the purchase
+			// Tolerated residue (assumption A2): a rejection decided after buyGas may leave exactly the purchase
 			// behind -- sender debited gasLimit*price, pool debited gasLimit -- for the caller to undo.
-			tolerated := lateClass(r.class)
-			if tolerated && stateDirty {
-				d := diff(before, strict)
-				sk := string(crypto.Keccak256(sender[:]))
-				a, b := before.get(sender), strict.get(sender)
-				want := new(big.Int).Sub(a.Balance, c.fee)
-				if len(d) != 1 || d[0] != sk || b.Balance.Cmp(want) != 0 || b.Nonce != a.Nonce || b.Root != a.Root || string(b.CodeHash) != string(a.CodeHash) {
-					tolerated = false
-				}
-			}
-			if tolerated && poolDelta != 0 && poolDelta != int64(c.gas) {
-				tolerated = false
-			}
-			if !tolerated {
+			stateOK, poolOK := !stateDirty, poolDelta == 0
+			if lateClass(r.class) {
 				if stateDirty {
-					r.fail("state-unchanged", fmt.Sprintf("rejected with %q but the state differs before any caller-side revert: %s", r.errStr, describeDiff(before, strict)))
+					d := diff(before, strict)
+					sk := string(crypto.Keccak256(sender[:]))
+					a, b := before.get(sender), strict.get(sender)
+					want := new(big.Int).Sub(a.Balance, c.fee)
+					stateOK = len(d) == 1 && d[0] == sk && b.Balance.Cmp(want) == 0 && b.Nonce == a.Nonce && b.Root == a.Root && string(b.CodeHash) == string(a.CodeHash)
 				}
-				if poolDelta != 0 {
-					r.fail("gas-pool-unchanged", fmt.Sprintf("rejected with %q but the gas pool went %d -> %d", r.errStr, poolInit, poolAfter))
-				}
-			} else {
-				r.residue = stateDirty
-				r.poolLeak = poolDelta != 0
+				poolOK = poolDelta == 0 || poolDelta == int64(c.gas)
 			}
+			if !stateOK {
+				r.fail("state-unchanged", fmt.Sprintf("rejected with %q but the state differs before any caller-side revert: %s", r.errStr, describeDiff(before, strict)))
+			}
+			if !poolOK {
+				r.fail("gas-pool-unchanged", fmt.Sprintf("rejected with %q but the gas pool went %d -> %d", r.errStr, poolInit, poolAfter))
+			}
+			r.residue = stateDirty && stateOK
+			r.poolLeak = poolDelta != 0 && poolOK
 		}
 		// weak view: after the revert every caller in the repository performs. (When the strict view is already
 		// bit-identical there is nothing a revert could restore; the second read-back is skipped.)
@@ -405,26 +416,44 @@ func evalTx(p *preState, spec txSpec, tx *types.Transaction, c concrete) *txResu
 	if n0, n1 := before.get(sender).Nonce, after.get(sender).Nonce; n1 != n0+1 {
 		r.fail("sender-nonce-plus-one", fmt.Sprintf("sender nonce %d -> %d", n0, n1))
 	}
-	// coinbase (header.ProposerAddress in this code base) receives gasUsed*price
-	if d := new(big.Int).Sub(after.get(addrCoinbase).Balance, before.get(addrCoinbase).Balance); d.Cmp(fee) != 0 {
-		r.fail("coinbase-fee", fmt.Sprintf("coinbase gained %v, gasUsed*price = %d*%v = %v", d, rc.GasUsed, c.price, fee))
-	}
-	// sender pays value + fee (the value comes back when the execution failed)
+	// Expected balance deltas of the parties, summed per account (the parties may alias):
+	//   sender   -(value + gasUsed*price)   (the value comes back when the execution failed, A6)
+	//   proposer +gasUsed*price             (header.ProposerAddress is the KVM coinbase in this code base, A1)
+	//   target   +value                     (only predicted for targets without code)
 	pay := new(big.Int).Set(fee)
 	if r.status == "ok" {
 		pay.Add(pay, c.value)
 	}
-	if d := new(big.Int).Sub(before.get(sender).Balance, after.get(sender).Balance); d.Cmp(pay) != 0 {
-		r.fail("sender-pays-value-plus-fee", fmt.Sprintf("sender lost %v, expected %v (value %v, fee %v, status %s)", d, pay, c.value, fee, r.status))
+	type party struct {
+		a      common.Address
+		oracle string
+		want   *big.Int
 	}
-	if spec.Target == tEOA || spec.Target == tEmpty {
+	parties := []party{{sender, "sender-pays-value-plus-fee", new(big.Int).Neg(pay)}}
+	addParty := func(a common.Address, oracle string, v *big.Int) {
+		for i := range parties {
+			if parties[i].a == a {
+				parties[i].want.Add(parties[i].want, v)
+				return
+			}
+		}
+		parties = append(parties, party{a, oracle, new(big.Int).Set(v)})
+	}
+	addParty(coinbase, "coinbase-fee", fee)
+	if plainTarget(spec.Target) {
 		if r.status != "ok" {
 			r.fail("plain-transfer-succeeds", "transfer to an account without code reported failure")
 		}
-		if d := new(big.Int).Sub(after.get(*c.to).Balance, before.get(*c.to).Balance); d.Cmp(c.value) != 0 {
-			r.fail("target-gains-value", fmt.Sprintf("target gained %v, value %v", d, c.value))
+		addParty(*c.to, "target-gains-value", c.value)
+	}
+	for _, p := range parties {
+		if d := new(big.Int).Sub(after.get(p.a).Balance, before.get(p.a).Balance); d.Cmp(p.want) != 0 {
+			r.fail(p.oracle, fmt.Sprintf("balance of %s changed by %v, expected %v (value %v, gasUsed %d * price %v = %v, status %s)",
+				w.nameOf(string(crypto.Keccak256(p.a[:]))), d, p.want, c.value, rc.GasUsed, c.price, fee, r.status))
 		}
-		if dd := diff(before, after); len(dd) > 3 {
+	}
+	if plainTarget(spec.Target) {
+		if dd := diff(before, after); len(dd) > len(parties) {
 			r.fail("only-parties-change", "plain transfer changed other accounts: "+describeDiff(before, after))
 		}
 	}
